@@ -15,42 +15,57 @@ Variable sz : sanz.
 (* Specification: what each handle denotes and what every timer must be
    given, from the API contract alone (no objects, no reporter). *)
 
-Definition callsite := (bytes * tags * bytes)%type.     (* scope prefix, scope tags, call name *)
+(* a call site: the scope and name NewCall was given, and the table epochs of
+   the three scopes its metrics live in at that moment *)
+Definition callsite := (scope * bytes * (nat * nat * nat))%type.
+Definition call_err_scope (sc : scope) : scope := (fst sc, tmerge (snd sc) (stags sz [(RESULT_TYPE, R_ERROR)])).
+Definition call_ok_scope (sc : scope) : scope := (fst sc, tmerge (snd sc) (stags sz [(RESULT_TYPE, R_SUCCESS)])).
+Definition call_lat_scope (sc : scope) (n : bytes) : scope := (jn (sepz sz) (fst sc ++ sn sz n), snd sc).
 Definition call_err_key (c : callsite) : key :=
-  (fst (fst c), tmerge (snd (fst c)) (stags sz [(RESULT_TYPE, R_ERROR)]), sn sz (snd c)).
+  mkkey (call_err_scope (fst (fst c))) (sn sz (snd (fst c))) (fst (fst (snd c))).
 Definition call_ok_key (c : callsite) : key :=
-  (fst (fst c), tmerge (snd (fst c)) (stags sz [(RESULT_TYPE, R_SUCCESS)]), sn sz (snd c)).
+  mkkey (call_ok_scope (fst (fst c))) (sn sz (snd (fst c))) (snd (fst (snd c))).
 Definition call_lat_key (c : callsite) : key :=
-  (jn (sepz sz) (fst (fst c) ++ sn sz (snd c)), snd (fst c), sn sz LATENCY).
+  mkkey (call_lat_scope (fst (fst c)) (snd (fst c))) (sn sz LATENCY) (snd (snd c)).
 
 Record senv := SEnv {
-  e_scopes : list (bytes * tags);        (* scope handle -> (prefix, tags) *)
-  e_timers : list key;                   (* timer handle -> (scope, name) *)
+  e_scopes : list scope;                 (* scope handle -> (prefix, tags) *)
+  e_timers : list key;                   (* timer handle -> (scope, name, table epoch) *)
   e_nh : nat;                            (* histogram handles *)
   e_sws : list (option key * Z);         (* stopwatch handle -> (its timer, if it is a timer's; start time) *)
   e_calls : list callsite;
-  e_clk : nat                            (* clock readings taken so far *)
+  e_clk : nat;                           (* clock readings taken so far *)
+  e_reg : reg                            (* closed / dropped scopes, table epochs *)
 }.
 
 Definition sinit (root : bytes * tags) : senv :=
-  SEnv [(jn (sepz sz) (sn sz (fst root)), tmerge [] (stags sz (snd root)))] [] 0 [] [] 0.
+  let r := (jn (sepz sz) (sn sz (fst root)), tmerge [] (stags sz (snd root))) in
+  SEnv [r] [] 0 [] [] 0 (reg_init r).
+
+Definition e_with_reg (e : senv) (r : reg) : senv :=
+  SEnv (e_scopes e) (e_timers e) (e_nh e) (e_sws e) (e_calls e) (e_clk e) r.
 
 (* one call: the new environment and the values timers must receive during it *)
-Definition sstep (clk : nat -> Z) (e : senv) (o : op) : senv * list (key * Z) :=
+Definition sstep (fl : flavour) (clk : nat -> Z) (e : senv) (o : op) : senv * list (key * Z) :=
   match o with
   | OSub i p =>
       match nth_error (e_scopes e) i with
-      | Some sc => (SEnv (e_scopes e ++ [(jn (sepz sz) (fst sc ++ sn sz p), snd sc)]) (e_timers e) (e_nh e) (e_sws e) (e_calls e) (e_clk e), [])
+      | Some sc =>
+          let v := (jn (sepz sz) (fst sc ++ sn sz p), snd sc) in
+          (SEnv (e_scopes e ++ [v]) (e_timers e) (e_nh e) (e_sws e) (e_calls e) (e_clk e) (reg_note (e_reg e) v), [])
       | None => (e, [])
       end
   | OTag i t =>
       match nth_error (e_scopes e) i with
-      | Some sc => (SEnv (e_scopes e ++ [(fst sc, tmerge (snd sc) (stags sz t))]) (e_timers e) (e_nh e) (e_sws e) (e_calls e) (e_clk e), [])
+      | Some sc =>
+          let v := (fst sc, tmerge (snd sc) (stags sz t)) in
+          (SEnv (e_scopes e ++ [v]) (e_timers e) (e_nh e) (e_sws e) (e_calls e) (e_clk e) (reg_note (e_reg e) v), [])
       | None => (e, [])
       end
   | OTimer i n =>
       match nth_error (e_scopes e) i with
-      | Some sc => (SEnv (e_scopes e) (e_timers e ++ [(fst sc, snd sc, sn sz n)]) (e_nh e) (e_sws e) (e_calls e) (e_clk e), [])
+      | Some sc => (SEnv (e_scopes e) (e_timers e ++ [mkkey sc (sn sz n) (ep_of (r_ep (e_reg e)) sc)])
+                         (e_nh e) (e_sws e) (e_calls e) (e_clk e) (e_reg e), [])
       | None => (e, [])
       end
   | ORecord t d =>
@@ -58,60 +73,78 @@ Definition sstep (clk : nat -> Z) (e : senv) (o : op) : senv * list (key * Z) :=
       | Some k => (e, [(k, d)])
       | None => (e, [])
       end
-  | OPass => (e, [])
+  | OPass =>
+      if r_rootclosed (e_reg e) then (e, [])
+      else (e_with_reg e (reg_pass (is_test fl) (e_reg e)), [])
   | OStart t =>
       match nth_error (e_timers e) t with
-      | Some k => (SEnv (e_scopes e) (e_timers e) (e_nh e) (e_sws e ++ [(Some k, clk (e_clk e))]) (e_calls e) (S (e_clk e)), [])
+      | Some k => (SEnv (e_scopes e) (e_timers e) (e_nh e) (e_sws e ++ [(Some k, clk (e_clk e))]) (e_calls e) (S (e_clk e)) (e_reg e), [])
       | None => (e, [])
       end
   | OHist i n spec =>
       match nth_error (e_scopes e) i with
-      | Some sc => (SEnv (e_scopes e) (e_timers e) (S (e_nh e)) (e_sws e) (e_calls e) (e_clk e), [])
+      | Some sc => (SEnv (e_scopes e) (e_timers e) (S (e_nh e)) (e_sws e) (e_calls e) (e_clk e) (e_reg e), [])
       | None => (e, [])
       end
   | OHStart h =>
       if (h <? e_nh e)%nat
-      then (SEnv (e_scopes e) (e_timers e) (e_nh e) (e_sws e ++ [(None, clk (e_clk e))]) (e_calls e) (S (e_clk e)), [])
+      then (SEnv (e_scopes e) (e_timers e) (e_nh e) (e_sws e ++ [(None, clk (e_clk e))]) (e_calls e) (S (e_clk e)) (e_reg e), [])
       else (e, [])
   | OStop w =>
       match nth_error (e_sws e) w with
       | Some (r, st) =>
-          (SEnv (e_scopes e) (e_timers e) (e_nh e) (e_sws e) (e_calls e) (S (e_clk e)),
+          (SEnv (e_scopes e) (e_timers e) (e_nh e) (e_sws e) (e_calls e) (S (e_clk e)) (e_reg e),
            match r with Some k => [(k, sat64 (clk (e_clk e) - st))] | None => [] end)
       | None => (e, [])
       end
   | OCall i n =>
       match nth_error (e_scopes e) i with
-      | Some sc => (SEnv (e_scopes e) (e_timers e) (e_nh e) (e_sws e) (e_calls e ++ [(fst sc, snd sc, n)]) (e_clk e), [])
+      | Some sc =>
+          let ep := r_ep (e_reg e) in
+          let ce := call_err_scope sc in
+          let cs := call_ok_scope sc in
+          let cl := call_lat_scope sc n in
+          (SEnv (e_scopes e) (e_timers e) (e_nh e) (e_sws e)
+                (e_calls e ++ [(sc, n, (ep_of ep ce, ep_of ep cs, ep_of ep cl))]) (e_clk e)
+                (reg_note (reg_note (reg_note (e_reg e) ce) cs) cl), [])
       | None => (e, [])
       end
   | OExec c b =>
       match nth_error (e_calls e) c with
       | Some cc =>
-          (SEnv (e_scopes e) (e_timers e) (e_nh e) (e_sws e) (e_calls e) (S (S (e_clk e))),
+          (SEnv (e_scopes e) (e_timers e) (e_nh e) (e_sws e) (e_calls e) (S (S (e_clk e))) (e_reg e),
            [(call_lat_key cc, sat64 (clk (S (e_clk e)) - clk (e_clk e)))])
+      | None => (e, [])
+      end
+  | OClose i =>
+      match nth_error (e_scopes e) i with
+      | Some sc =>
+          if r_rootclosed (e_reg e) then (e, [])
+          else if scope_eqb sc (r_root (e_reg e))
+          then (e_with_reg e (reg_rootclose (is_test fl) (e_reg e)), [])
+          else (e_with_reg e (reg_close (e_reg e) sc), [])
       | None => (e, [])
       end
   end.
 
-Fixpoint sfold (clk : nat -> Z) (e : senv) (ops : list op) : senv * list (key * Z) :=
+Fixpoint sfold (fl : flavour) (clk : nat -> Z) (e : senv) (ops : list op) : senv * list (key * Z) :=
   match ops with
   | [] => (e, [])
-  | o :: r => let p := sstep clk e o in
-              let q := sfold clk (fst p) r in
+  | o :: r => let p := sstep fl clk e o in
+              let q := sfold fl clk (fst p) r in
               (fst q, snd p ++ snd q)
   end.
 
-Definition senv_of clk root ops : senv := fst (sfold clk (sinit root) ops).
+Definition senv_of fl clk root ops : senv := fst (sfold fl clk (sinit root) ops).
 (* the values timers must have been given after the history, in order *)
-Definition records clk root ops : list (key * Z) := snd (sfold clk (sinit root) ops).
+Definition records fl clk root ops : list (key * Z) := snd (sfold fl clk (sinit root) ops).
 
-Lemma sfold_app clk e a b :
-  sfold clk e (a ++ b) =
-  (fst (sfold clk (fst (sfold clk e a)) b), snd (sfold clk e a) ++ snd (sfold clk (fst (sfold clk e a)) b)).
+Lemma sfold_app fl clk e a b :
+  sfold fl clk e (a ++ b) =
+  (fst (sfold fl clk (fst (sfold fl clk e a)) b), snd (sfold fl clk e a) ++ snd (sfold fl clk (fst (sfold fl clk e a)) b)).
 Proof.
   revert e; induction a as [|o a IH]; intro e; cbn [app sfold fst snd].
-  - destruct (sfold clk e b); reflexivity.
+  - destruct (sfold fl clk e b); reflexivity.
   - rewrite IH. cbn [fst snd]. now rewrite app_assoc.
 Qed.
 
@@ -192,11 +225,17 @@ Proof.
   apply list_eqb_spec. intros [k v] [k' v']; cbn. rewrite andb_true_iff, !zs_eqb_spec.
   split; [intros [-> ->]; reflexivity | intros Hh; inversion Hh; auto].
 Qed.
+Lemma scope_eqb_spec a b : scope_eqb a b = true <-> a = b.
+Proof.
+  destruct a as [p t], b as [p' t']; unfold scope_eqb; cbn.
+  rewrite andb_true_iff, zs_eqb_spec, tags_eqb_spec.
+  split; [intros [-> ->]; reflexivity | intros Hh; inversion Hh; auto].
+Qed.
 Lemma key_eqb_spec a b : key_eqb a b = true <-> a = b.
 Proof.
-  destruct a as [[p t] n], b as [[p' t'] n']; unfold key_eqb; cbn.
-  rewrite !andb_true_iff, !zs_eqb_spec, tags_eqb_spec.
-  split; [intros [[-> ->] ->]; reflexivity | intros Hh; inversion Hh; auto].
+  destruct a as [[[p t] n] e], b as [[[p' t'] n'] e']; unfold key_eqb, kpre, ktags, knm, kep; cbn.
+  rewrite !andb_true_iff, !zs_eqb_spec, tags_eqb_spec, Nat.eqb_eq.
+  split; [intros [[[-> ->] ->] ->]; reflexivity | intros Hh; inversion Hh; auto].
 Qed.
 Lemma key_eqb_refl k : key_eqb k k = true.
 Proof. now apply key_eqb_spec. Qed.
@@ -365,6 +404,7 @@ Record Ext (s s' : state) : Prop := {
   x_nclk : nclk s' = nclk s;
   x_fruns : fruns s' = fruns s;
   x_rets : rets s' = rets s;
+  x_reg : sreg s' = sreg s;
   x_tkeys : exists x, tkeys s' = tkeys s ++ x;
   x_ckeys : exists y, ckeys s' = ckeys s ++ y
 }.
@@ -437,9 +477,9 @@ Proof.
     { rewrite (kfind_new _ _ Ek). unfold ckeys. now rewrite map_length. }
     assert (forall s', timers s' = timers s -> scopes s' = scopes s -> thand s' = thand s ->
               hhand s' = hhand s -> sws s' = sws s -> calls s' = calls s -> nclk s' = nclk s ->
-              fruns s' = fruns s -> rets s' = rets s ->
+              fruns s' = fruns s -> rets s' = rets s -> sreg s' = sreg s ->
               ckeys s' = ckeys s ++ [k] -> Ext s s') as HE.
-    { intros s' H1 H2 H3 H4 H5 H6 H7 H8 H9 H10. constructor; try assumption.
+    { intros s' H1 H2 H3 H4 H5 H6 H7 H8 H9 H11 H10. constructor; try assumption.
       - exists []. unfold tkeys. now rewrite H1, app_nil_r.
       - now exists [k]. }
     destruct (has_cached fl); cbn [fst snd].
@@ -468,8 +508,8 @@ Proof.
   - split; [apply Ext_refl | assumption].
   - assert (forall s', timers s' = timers s -> counters s' = counters s -> scopes s' = scopes s ->
               thand s' = thand s -> hhand s' = hhand s -> sws s' = sws s -> calls s' = calls s ->
-              nclk s' = nclk s -> fruns s' = fruns s -> rets s' = rets s -> Ext s s') as HE.
-    { intros s' H1 H0 H2 H3 H4 H5 H6 H7 H8 H9. constructor; try assumption.
+              nclk s' = nclk s -> fruns s' = fruns s -> rets s' = rets s -> sreg s' = sreg s -> Ext s s') as HE.
+    { intros s' H1 H0 H2 H3 H4 H5 H6 H7 H8 H9 H11. constructor; try assumption.
       - exists []. unfold tkeys. now rewrite H1, app_nil_r.
       - exists []. unfold ckeys. now rewrite H0, app_nil_r. }
     destruct (has_cached fl); cbn [fst snd].
@@ -599,7 +639,8 @@ Record Sim (s : state) (e : senv) : Prop := {
   sim_nh : length (hhand s) = e_nh e;
   sim_sws : Forall2 (sw_rel (tkeys s)) (sws s) (e_sws e);
   sim_calls : Forall2 (call_rel (tkeys s) (ckeys s)) (calls s) (e_calls e);
-  sim_clk : nclk s = e_clk e
+  sim_clk : nclk s = e_clk e;
+  sim_reg : sreg s = e_reg e
 }.
 
 Lemma href_app keys x oi k : href keys oi k -> href (keys ++ x) oi k.
@@ -629,23 +670,24 @@ Qed.
 
 Lemma step_sim fl clk s e acc o :
   Sim s e -> DelI fl s acc ->
-  Sim (step sz fl clk s o) (fst (sstep clk e o)) /\
-  DelI fl (step sz fl clk s o) (acc ++ snd (sstep clk e o)).
+  Sim (step sz fl clk s o) (fst (sstep fl clk e o)) /\
+  DelI fl (step sz fl clk s o) (acc ++ snd (sstep fl clk e o)).
 Proof.
-  intros HS HD. pose proof HS as [Hsc Hth Hnh Hsw Hca Hck].
-  destruct o as [i p|i t|i n|t d| |t|i n spec|h|w|i n|c b]; cbn [step sstep].
+  intros HS HD. pose proof HS as [Hsc Hth Hnh Hsw Hca Hck Hrg].
+  destruct o as [i p|i t|i n|t d| |t|i n spec|h|w|i n|c b|i]; cbn [step sstep].
   - (* SubScope *)
     rewrite Hsc. destruct (nth_error (e_scopes e) i) as [sc|]; cbn [fst snd]; rewrite app_nil_r; [|auto].
-    split; [constructor; cbn; auto; now rewrite Hsc|].
+    split; [constructor; cbn; auto; now rewrite ?Hsc, ?Hrg|].
     apply (DelI_same _ s); auto.
   - (* Tagged *)
     rewrite Hsc. destruct (nth_error (e_scopes e) i) as [sc|]; cbn [fst snd]; rewrite app_nil_r; [|auto].
-    split; [constructor; cbn; auto; now rewrite Hsc|].
+    split; [constructor; cbn; auto; now rewrite ?Hsc, ?Hrg|].
     apply (DelI_same _ s); auto.
   - (* Timer *)
-    rewrite Hsc. destruct (nth_error (e_scopes e) i) as [sc|]; cbn [fst snd]; rewrite app_nil_r; [|auto].
-    destruct (get_timer_spec fl s (fst sc, snd sc, sn sz n) acc HD) as (HE & HD' & Hk).
-    pose proof (Sim_ext _ _ _ HS HE) as [Hsc' Hth' Hnh' Hsw' Hca' Hck'].
+    rewrite Hsc, Hrg. destruct (nth_error (e_scopes e) i) as [sc|]; cbn [fst snd]; rewrite app_nil_r; [|auto].
+    set (k := mkkey sc (sn sz n) (ep_of (r_ep (e_reg e)) sc)).
+    destruct (get_timer_spec fl s k acc HD) as (HE & HD' & Hk).
+    pose proof (Sim_ext _ _ _ HS HE) as [Hsc' Hth' Hnh' Hsw' Hca' Hck' Hrg'].
     split; [constructor; cbn; auto|].
     + apply Forall2_snoc; assumption.
     + eapply (DelI_same _ _ _ acc); [| | |exact HD']; reflexivity.
@@ -655,8 +697,11 @@ Proof.
     + destruct (deliver_spec fl s oi k d acc HD Hn) as [HE HD']. split; [eapply Sim_ext; eauto | exact HD'].
     + rewrite app_nil_r. auto.
   - (* report pass *)
-    cbn [fst snd]. rewrite app_nil_r. destruct (pass_spec fl s acc HD) as [HE HD'].
-    split; [eapply Sim_ext; eauto | exact HD'].
+    rewrite Hrg. destruct (r_rootclosed (e_reg e)); cbn [fst snd]; rewrite app_nil_r; [auto|].
+    destruct (pass_spec fl s acc HD) as [HE HD'].
+    pose proof (Sim_ext _ _ _ HS HE) as [Hsc' Hth' Hnh' Hsw' Hca' Hck' Hrg'].
+    split; [constructor; cbn; auto; now rewrite Hrg'|].
+    eapply (DelI_same _ _ _ acc); [| | |exact HD']; reflexivity.
   - (* timer.Start *)
     pose proof (Forall2_nth _ _ _ t Hth) as Hn.
     destruct (nth_error (thand s) t) as [oi|], (nth_error (e_timers e) t) as [k|]; try contradiction;
@@ -666,8 +711,8 @@ Proof.
     + apply (DelI_same _ s); auto.
   - (* Histogram *)
     rewrite Hsc. destruct (nth_error (e_scopes e) i) as [sc|]; cbn [fst snd]; rewrite app_nil_r; [|auto].
-    destruct (get_hist_spec fl s (fst sc, snd sc, sn sz n) spec acc HD) as (HE & HD').
-    pose proof (Sim_ext _ _ _ HS HE) as [Hsc' Hth' Hnh' Hsw' Hca' Hck'].
+    destruct (get_hist_spec fl s (mkkey sc (sn sz n) (ep_of (r_ep (sreg s)) sc)) spec acc HD) as (HE & HD').
+    pose proof (Sim_ext _ _ _ HS HE) as [Hsc' Hth' Hnh' Hsw' Hca' Hck' Hrg'].
     split; [constructor; cbn; auto|].
     + rewrite app_length. cbn. lia.
     + eapply (DelI_same _ _ _ acc); [| | |exact HD']; reflexivity.
@@ -689,7 +734,7 @@ Proof.
     destruct Hn as [Hst Hr]. cbn in Hst, Hr. subst st'.
     set (s1 := set_nclk s (S (nclk s))).
     assert (DelI fl s1 acc) as HD1 by (apply (DelI_same _ s); auto).
-    assert (Sim s1 (SEnv (e_scopes e) (e_timers e) (e_nh e) (e_sws e) (e_calls e) (S (e_clk e)))) as HS1
+    assert (Sim s1 (SEnv (e_scopes e) (e_timers e) (e_nh e) (e_sws e) (e_calls e) (S (e_clk e)) (e_reg e))) as HS1
       by (constructor; cbn; auto).
     destruct r as [oi|oi], sp as [k|]; try contradiction.
     + destruct (deliver_spec fl s1 oi k (sat64 (clk (nclk s) - st)) acc HD1 Hr) as [HE HD'].
@@ -697,10 +742,11 @@ Proof.
     + rewrite app_nil_r. destruct (hrecord_spec fl s1 oi (sat64 (clk (nclk s) - st)) acc HD1) as [HE HD'].
       split; [eapply Sim_ext; eauto | exact HD'].
   - (* instrument.NewCall *)
-    rewrite Hsc. destruct (nth_error (e_scopes e) i) as [sc|]; cbn [fst snd]; rewrite app_nil_r; [|auto].
-    set (ke := (fst sc, tmerge (snd sc) (stags sz [(RESULT_TYPE, R_ERROR)]), sn sz n)).
-    set (ks := (fst sc, tmerge (snd sc) (stags sz [(RESULT_TYPE, R_SUCCESS)]), sn sz n)).
-    set (kl := (jn (sepz sz) (fst sc ++ sn sz n), snd sc, sn sz LATENCY)).
+    rewrite Hsc, Hrg. destruct (nth_error (e_scopes e) i) as [sc|]; cbn [fst snd]; rewrite app_nil_r; [|auto].
+    fold (call_err_scope sc) (call_ok_scope sc) (call_lat_scope sc n).
+    set (ke := mkkey (call_err_scope sc) (sn sz n) (ep_of (r_ep (e_reg e)) (call_err_scope sc))).
+    set (ks := mkkey (call_ok_scope sc) (sn sz n) (ep_of (r_ep (e_reg e)) (call_ok_scope sc))).
+    set (kl := mkkey (call_lat_scope sc n) (sn sz LATENCY) (ep_of (r_ep (e_reg e)) (call_lat_scope sc n))).
     destruct (get_counter_spec fl s ke acc HD) as (HE1 & HD1 & Hk1).
     set (r1 := get_counter fl s ke) in *.
     destruct (get_counter_spec fl (fst r1) ks acc HD1) as (HE2 & HD2 & Hk2).
@@ -708,16 +754,17 @@ Proof.
     destruct (get_timer_spec fl (fst r2) kl acc HD2) as (HE3 & HD3 & Hk3).
     set (r3 := get_timer fl (fst r2) kl) in *.
     pose proof (Ext_trans _ _ _ HE1 (Ext_trans _ _ _ HE2 HE3)) as HE.
-    pose proof (Sim_ext _ _ _ HS HE) as [Hsc' Hth' Hnh' Hsw' Hca' Hck'].
+    pose proof (Sim_ext _ _ _ HS HE) as [Hsc' Hth' Hnh' Hsw' Hca' Hck' Hrg'].
     split; [constructor; cbn; auto|].
     + apply Forall2_snoc; [assumption|]. unfold call_rel; cbn [fst snd].
-      destruct HE2 as [_ _ _ _ _ _ _ _ _ [y2 Hy2]], HE3 as [_ _ _ _ _ _ _ _ _ [y3 Hy3]].
+      destruct HE2 as [_ _ _ _ _ _ _ _ _ _ [y2 Hy2]], HE3 as [_ _ _ _ _ _ _ _ _ _ [y3 Hy3]].
       split; [|split].
       * unfold href. change (kfind ke (ckeys (fst r3)) = Some (snd r1)).
         rewrite Hy3, Hy2. now apply kfind_app, kfind_app.
       * unfold href. change (kfind ks (ckeys (fst r3)) = Some (snd r2)).
         rewrite Hy3. now apply kfind_app.
       * exact Hk3.
+    + now rewrite Hrg'.
     + eapply (DelI_same _ _ _ acc); [| | |exact HD3]; reflexivity.
   - (* Exec *)
     pose proof (Forall2_nth _ _ _ c Hca) as Hn.
@@ -726,22 +773,32 @@ Proof.
     destruct Hn as (_ & _ & Hl). cbn [fst snd] in Hl.
     set (s1 := set_nclk (set_fruns (set_nclk s (S (nclk s))) (fruns s ++ [(c, b)])) (S (S (nclk s)))).
     assert (DelI fl s1 acc) as HD1 by (apply (DelI_same _ s); auto).
-    assert (Sim s1 (SEnv (e_scopes e) (e_timers e) (e_nh e) (e_sws e) (e_calls e) (S (S (e_clk e))))) as HS1
+    assert (Sim s1 (SEnv (e_scopes e) (e_timers e) (e_nh e) (e_sws e) (e_calls e) (S (S (e_clk e))) (e_reg e))) as HS1
       by (constructor; cbn; auto).
     cbn [nclk set_fruns set_nclk]. fold s1.
     destruct (deliver_spec fl s1 ti (call_lat_key cc) (sat64 (clk (S (nclk s)) - clk (nclk s))) acc HD1 Hl) as [HE HD'].
     set (s2 := deliver fl s1 ti (sat64 (clk (S (nclk s)) - clk (nclk s)))) in *.
     destruct (inc_counter_spec fl s2 (if b then ce else cs) _ HD') as [HE3 HD3].
     rewrite <- Hck in HS1 |- *. split.
-    + pose proof (Sim_ext _ _ _ HS1 (Ext_trans _ _ _ HE HE3)) as [Hsc' Hth' Hnh' Hsw' Hca' Hck'].
+    + pose proof (Sim_ext _ _ _ HS1 (Ext_trans _ _ _ HE HE3)) as [Hsc' Hth' Hnh' Hsw' Hca' Hck' Hrg'].
       constructor; cbn; auto.
     + eapply (DelI_same _ _ _ _); [| | |exact HD3]; reflexivity.
+  - (* Close *)
+    rewrite Hsc, Hrg. destruct (nth_error (e_scopes e) i) as [sc|]; cbn [fst snd]; [|rewrite app_nil_r; auto].
+    destruct (r_rootclosed (e_reg e)); cbn [fst snd]; [rewrite app_nil_r; auto|].
+    destruct (scope_eqb sc (r_root (e_reg e))); cbn [fst snd]; rewrite app_nil_r.
+    + destruct (pass_spec fl s acc HD) as [HE HD'].
+      pose proof (Sim_ext _ _ _ HS HE) as [Hsc' Hth' Hnh' Hsw' Hca' Hck' Hrg'].
+      split; [constructor; cbn; auto; now rewrite Hrg'|].
+      eapply (DelI_same _ _ _ acc); [| | |exact HD']; reflexivity.
+    + split; [constructor; cbn; auto; now rewrite Hrg|].
+      apply (DelI_same _ s); auto.
 Qed.
 
 Lemma fold_sim fl clk ops s e acc :
   Sim s e -> DelI fl s acc ->
-  Sim (fold_left (step sz fl clk) ops s) (fst (sfold clk e ops)) /\
-  DelI fl (fold_left (step sz fl clk) ops s) (acc ++ snd (sfold clk e ops)).
+  Sim (fold_left (step sz fl clk) ops s) (fst (sfold fl clk e ops)) /\
+  DelI fl (fold_left (step sz fl clk) ops s) (acc ++ snd (sfold fl clk e ops)).
 Proof.
   revert s e acc; induction ops as [|o r IH]; intros s e acc HS HD; cbn [fold_left sfold fst snd].
   - rewrite app_nil_r. auto.
@@ -750,8 +807,8 @@ Proof.
 Qed.
 
 Lemma run_sim fl clk root ops :
-  Sim (run sz fl clk root ops) (senv_of clk root ops) /\
-  DelI fl (run sz fl clk root ops) (records clk root ops).
+  Sim (run sz fl clk root ops) (senv_of fl clk root ops) /\
+  DelI fl (run sz fl clk root ops) (records fl clk root ops).
 Proof.
   unfold run, senv_of, records.
   exact (fold_sim fl clk ops (init sz root) (sinit root) [] (sim_init root) (deli_init fl root)).
@@ -759,7 +816,7 @@ Qed.
 
 (* ---- C10_record_once_sync ---- *)
 Lemma record_once_sync fl clk root ops :
-  delivered fl (run sz fl clk root ops) (records clk root ops).
+  delivered fl (run sz fl clk root ops) (records fl clk root ops).
 Proof. exact (proj1 (proj2 (run_sim fl clk root ops))). Qed.
 
 Lemma run_snoc fl clk root pre o :
@@ -769,11 +826,11 @@ Lemma run_app fl clk root pre post :
   run sz fl clk root (pre ++ post) = fold_left (step sz fl clk) post (run sz fl clk root pre).
 Proof. unfold run. now rewrite fold_left_app. Qed.
 
-Lemma records_snoc clk root pre o :
-  records clk root (pre ++ [o]) = records clk root pre ++ snd (sstep clk (senv_of clk root pre) o).
+Lemma records_snoc fl clk root pre o :
+  records fl clk root (pre ++ [o]) = records fl clk root pre ++ snd (sstep fl clk (senv_of fl clk root pre) o).
 Proof. unfold records, senv_of. rewrite sfold_app. cbn. now rewrite app_nil_r. Qed.
-Lemma senv_snoc clk root pre o :
-  senv_of clk root (pre ++ [o]) = fst (sstep clk (senv_of clk root pre) o).
+Lemma senv_snoc fl clk root pre o :
+  senv_of fl clk root (pre ++ [o]) = fst (sstep fl clk (senv_of fl clk root pre) o).
 Proof. unfold senv_of. rewrite sfold_app. reflexivity. Qed.
 
 (* a model timer handle and the specification's denotation of it *)
@@ -790,7 +847,7 @@ Lemma record_immediately fl clk root pre t d oi o :
   nth_error (thand (run sz fl clk root pre)) t = Some oi ->
   nth_error (timers (run sz fl clk root pre)) oi = Some o ->
   delivered fl (step sz fl clk (run sz fl clk root pre) (ORecord t d))
-            (records clk root pre ++ [(tkey o, d)]).
+            (records fl clk root pre ++ [(tkey o, d)]).
 Proof.
   intros Ht Ho. destruct (run_sim fl clk root pre) as [HS _].
   pose proof (handle_key _ _ _ _ _ HS Ht Ho) as Hk.
@@ -799,10 +856,11 @@ Proof.
 Qed.
 
 Lemma pass_adds_nothing fl clk root pre :
-  delivered fl (step sz fl clk (run sz fl clk root pre) OPass) (records clk root pre).
+  delivered fl (step sz fl clk (run sz fl clk root pre) OPass) (records fl clk root pre).
 Proof.
   rewrite <- run_snoc. pose proof (record_once_sync fl clk root (pre ++ [OPass])) as Hd.
-  rewrite records_snoc in Hd. cbn [sstep snd] in Hd. now rewrite app_nil_r in Hd.
+  rewrite records_snoc in Hd. cbn [sstep] in Hd.
+  destruct (r_rootclosed (e_reg (senv_of fl clk root pre))); cbn [snd] in Hd; now rewrite app_nil_r in Hd.
 Qed.
 
 (* scope.Timer(n): the handle's timer is the one named n in that scope *)
@@ -810,35 +868,36 @@ Lemma timer_identity fl clk root pre i n sc :
   nth_error (scopes (run sz fl clk root pre)) i = Some sc ->
   let s' := step sz fl clk (run sz fl clk root pre) (OTimer i n) in
   exists oi o, nth_error (thand s') (length (thand (run sz fl clk root pre))) = Some oi /\
-               nth_error (timers s') oi = Some o /\ tkey o = (fst sc, snd sc, sn sz n).
+               nth_error (timers s') oi = Some o /\
+               tkey o = mkkey sc (sn sz n) (ep_of (r_ep (sreg (run sz fl clk root pre))) sc).
 Proof.
   intros Hsc s'. destruct (run_sim fl clk root pre) as [HS _].
   destruct (run_sim fl clk root (pre ++ [OTimer i n])) as [HS' _].
   rewrite run_snoc in HS'. fold s' in HS'. rewrite senv_snoc in HS'. cbn [sstep] in HS'.
   rewrite <- (sim_scopes _ _ HS), Hsc in HS'. cbn [fst] in HS'.
   rewrite (Forall2_len _ _ _ (sim_thand _ _ HS)).
-  pose proof (Forall2_nth _ _ _ (length (e_timers (senv_of clk root pre))) (sim_thand _ _ HS')) as Hn.
+  pose proof (Forall2_nth _ _ _ (length (e_timers (senv_of fl clk root pre))) (sim_thand _ _ HS')) as Hn.
   cbn [e_timers] in Hn.
-  rewrite (nth_error_app2 (e_timers (senv_of clk root pre))), Nat.sub_diag in Hn by lia. cbn [nth_error] in Hn.
-  destruct (nth_error (thand s') (length (e_timers (senv_of clk root pre)))) as [oi|]; [|contradiction].
+  rewrite (nth_error_app2 (e_timers (senv_of fl clk root pre))), Nat.sub_diag in Hn by lia. cbn [nth_error] in Hn.
+  destruct (nth_error (thand s') (length (e_timers (senv_of fl clk root pre)))) as [oi|]; [|contradiction].
   apply kfind_some in Hn. unfold tkeys in Hn. rewrite nth_error_map in Hn.
   destruct (nth_error (timers s') oi) as [o|] eqn:Eo; [|discriminate].
-  exists oi, o. cbn in Hn. split; [reflexivity|]. split; [exact Eo | congruence].
+  exists oi, o. cbn in Hn. rewrite (sim_reg _ _ HS). split; [reflexivity|]. split; [exact Eo | congruence].
 Qed.
 
 (* ---- stopwatches ---- *)
-Lemma sstep_sws clk e o : exists x, e_sws (fst (sstep clk e o)) = e_sws e ++ x.
+Lemma sstep_sws fl clk e o : exists x, e_sws (fst (sstep fl clk e o)) = e_sws e ++ x.
 Proof.
   destruct o; cbn [sstep];
     repeat match goal with
            | |- context [match ?x with _ => _ end] => destruct x
            end; cbn [fst e_sws]; try (exists []; now rewrite app_nil_r); eexists; reflexivity.
 Qed.
-Lemma sfold_sws clk ops e : exists x, e_sws (fst (sfold clk e ops)) = e_sws e ++ x.
+Lemma sfold_sws fl clk ops e : exists x, e_sws (fst (sfold fl clk e ops)) = e_sws e ++ x.
 Proof.
   revert e; induction ops as [|o r IH]; intro e; cbn [sfold fst].
   - exists []; now rewrite app_nil_r.
-  - destruct (sstep_sws clk e o) as [x Hx]. destruct (IH (fst (sstep clk e o))) as [y Hy].
+  - destruct (sstep_sws fl clk e o) as [x Hx]. destruct (IH (fst (sstep fl clk e o))) as [y Hy].
     exists (x ++ y). now rewrite Hy, Hx, app_assoc.
 Qed.
 
@@ -847,16 +906,16 @@ Lemma stopwatch_elapsed fl clk root pre t mid oi o :
   nth_error (thand s0) t = Some oi -> nth_error (timers s0) oi = Some o ->
   let s1 := run sz fl clk root (pre ++ OStart t :: mid) in
   delivered fl (step sz fl clk s1 (OStop (length (sws s0))))
-            (records clk root (pre ++ OStart t :: mid) ++
+            (records fl clk root (pre ++ OStart t :: mid) ++
              [(tkey o, sat64 (clk (nclk s1) - clk (nclk s0)))]).
 Proof.
   intros s0 Ht Ho s1. destruct (run_sim fl clk root pre) as [HS0 _]. fold s0 in HS0.
   pose proof (handle_key _ _ _ _ _ HS0 Ht Ho) as Hk.
   destruct (run_sim fl clk root (pre ++ OStart t :: mid)) as [HS1 _]. subst s1.
-  assert (nth_error (e_sws (senv_of clk root (pre ++ OStart t :: mid))) (length (sws s0)) =
+  assert (nth_error (e_sws (senv_of fl clk root (pre ++ OStart t :: mid))) (length (sws s0)) =
           Some (Some (tkey o), clk (nclk s0))) as Hw.
-  { unfold senv_of. rewrite sfold_app. cbn [fst sfold]. fold (senv_of clk root pre).
-    destruct (sfold_sws clk mid (fst (sstep clk (senv_of clk root pre) (OStart t)))) as [x Hx].
+  { unfold senv_of. rewrite sfold_app. cbn [fst sfold]. fold (senv_of fl clk root pre).
+    destruct (sfold_sws fl clk mid (fst (sstep fl clk (senv_of fl clk root pre) (OStart t)))) as [x Hx].
     rewrite Hx. cbn [sstep]. rewrite Hk. cbn [fst e_sws].
     rewrite (Forall2_len _ _ _ (sim_sws _ _ HS0)), (sim_clk _ _ HS0).
     rewrite <- app_assoc, nth_error_app2, Nat.sub_diag by lia. reflexivity. }
@@ -892,13 +951,13 @@ Proof.
   assert (forall s' : state, sws s' = sws s -> hhand s' = hhand s ->
             (exists x, sws s' = sws s ++ x) /\ (exists y, hhand s' = hhand s ++ y)) as Hsame.
   { intros s' H1 H2. split; exists []; now rewrite app_nil_r. }
-  destruct o as [i p|i t|i n|t d| |t|i n spec|h|w|i n|c b]; cbn [step].
+  destruct o as [i p|i t|i n|t d| |t|i n spec|h|w|i n|c b|i]; cbn [step].
   - destruct (nth_error (scopes s) i); apply Hsame; reflexivity.
   - destruct (nth_error (scopes s) i); apply Hsame; reflexivity.
   - destruct (nth_error (scopes s) i); [|apply Hsame; reflexivity].
     apply Hsame; cbn; apply get_timer_frame.
   - destruct (nth_error (thand s) t); [|apply Hsame; reflexivity]. apply Hsame; apply deliver_frame.
-  - apply Hsame; apply pass_frame.
+  - destruct (r_rootclosed (sreg s)); [apply Hsame; reflexivity|]. apply Hsame; cbn; apply pass_frame.
   - destruct (nth_error (thand s) t); [|apply Hsame; reflexivity].
     split; [eexists; reflexivity | exists []; cbn; now rewrite app_nil_r].
   - destruct (nth_error (scopes s) i); [|apply Hsame; reflexivity].
@@ -915,6 +974,9 @@ Proof.
     + now rewrite (proj2 (get_timer_frame _ _ _)), (proj2 (get_counter_frame _ _ _)), (proj2 (get_counter_frame _ _ _)).
   - destruct (nth_error (calls s) c) as [[[ce cs] ti]|]; [|apply Hsame; reflexivity].
     apply Hsame; cbn; [rewrite (proj1 (deliver_frame _ _ _ _)) | rewrite (proj2 (deliver_frame _ _ _ _))]; reflexivity.
+  - destruct (nth_error (scopes s) i); [|apply Hsame; reflexivity].
+    destruct (r_rootclosed (sreg s)); [apply Hsame; reflexivity|].
+    destruct (scope_eqb _ _); apply Hsame; cbn; try reflexivity; apply pass_frame.
 Qed.
 Lemma fold_mono fl clk ops s :
   (exists x, sws (fold_left (step sz fl clk) ops s) = sws s ++ x) /\
@@ -993,7 +1055,7 @@ Qed.
 Lemma call_keys_differ cc :
   sv sz R_ERROR <> sv sz R_SUCCESS -> call_err_key cc <> call_ok_key cc.
 Proof.
-  intros Hv. destruct cc as [[p tg] n]. unfold call_err_key, call_ok_key; cbn [fst snd]. intros Hh.
+  intros Hv. destruct cc as [[[p tg] n] eps]. unfold call_err_key, call_ok_key, mkkey, call_err_scope, call_ok_scope; cbn [fst snd]. intros Hh.
   assert (tlookup (sk sz RESULT_TYPE) (tmerge tg (stags sz [(RESULT_TYPE, R_ERROR)])) =
           tlookup (sk sz RESULT_TYPE) (tmerge tg (stags sz [(RESULT_TYPE, R_SUCCESS)]))) as Hl by congruence.
   rewrite !tlookup_tmerge in Hl. cbn in Hl.
@@ -1007,11 +1069,11 @@ Lemma exec_spec fl clk root pre c b ce cs ti :
   let s := run sz fl clk root pre in
   nth_error (calls s) c = Some (ce, cs, ti) ->
   let s' := step sz fl clk s (OExec c b) in
-  exists cc, nth_error (e_calls (senv_of clk root pre)) c = Some cc /\
+  exists cc, nth_error (e_calls (senv_of fl clk root pre)) c = Some cc /\
     fruns s' = fruns s ++ [(c, b)] /\
     rets s' = rets s ++ [b] /\
     nclk s' = S (S (nclk s)) /\
-    delivered fl s' (records clk root pre ++
+    delivered fl s' (records fl clk root pre ++
                      [(call_lat_key cc, sat64 (clk (S (nclk s)) - clk (nclk s)))]) /\
     let kx := if b then call_err_key cc else call_ok_key cc in
     pend_of s' kx = wrap64 (pend_of s kx + 1) /\
@@ -1020,7 +1082,7 @@ Lemma exec_spec fl clk root pre c b ce cs ti :
 Proof.
   intros s Hc s'. destruct (run_sim fl clk root pre) as [HS HD]. fold s in HS, HD.
   pose proof (Forall2_nth _ _ _ c (sim_calls _ _ HS)) as Hn. rewrite Hc in Hn.
-  destruct (nth_error (e_calls (senv_of clk root pre)) c) as [cc|] eqn:Ecc; [|contradiction].
+  destruct (nth_error (e_calls (senv_of fl clk root pre)) c) as [cc|] eqn:Ecc; [|contradiction].
   destruct Hn as (Herr & Hok & Hlat). cbn [fst snd] in Herr, Hok, Hlat.
   exists cc. split; [reflexivity|].
   (* the delivery: from the simulation of one more step *)
@@ -1032,7 +1094,7 @@ Proof.
   set (d := sat64 (clk (nclk s1) - clk (nclk s))).
   set (s2 := deliver fl (set_nclk s1 (S (nclk s1))) ti d).
   assert (Ext (set_nclk s1 (S (nclk s1))) s2) as HE2.
-  { assert (DelI fl (set_nclk s1 (S (nclk s1))) (records clk root pre)) as HD1 by (apply (DelI_same _ s); auto).
+  { assert (DelI fl (set_nclk s1 (S (nclk s1))) (records fl clk root pre)) as HD1 by (apply (DelI_same _ s); auto).
     exact (proj1 (deliver_spec fl _ ti (call_lat_key cc) d _ HD1 Hlat)). }
   assert (counters s2 = counters s) as Hcs by (unfold s2; now rewrite deliver_counters).
   set (idx := if b then ce else cs).
